@@ -91,6 +91,10 @@ package tree
 //@ ghost field txBranch []Hash
 //@ ghost field txCount int
 
+// the outcome of the most recent AddLeaf (ghost observers for callers)
+//@ ghost var leafCalls int
+//@ ghost var lastLeafErr int
+
 // ghost view of the root table: one row per leaf position
 //@ ghost field rootHas map[int]bool
 //@ ghost field rootHash map[int]Hash
@@ -117,7 +121,8 @@ package tree
 //@   props C01 C07 C11
 //@   trusted
 //@   requires t != nil
-//@   modifies rootHas(t), rootHash(t), rootBlock(t), rootPos(t)
+//@   modifies rootHas(t), rootHash(t), rootBlock(t), rootPos(t), stmtFail
+//@   ensures stmtFail == old(stmtFail) + ite(result == nil, 0, 1)
 //@   ensures result == nil ==> rootHas(t) == upd(old(rootHas(t)), root.Index, true) && rootHash(t) == upd(old(rootHash(t)), root.Index, root.Hash) && rootBlock(t) == upd(old(rootBlock(t)), root.Index, root.BlockNum) && rootPos(t) == upd(old(rootPos(t)), root.Index, root.BlockPosition)
 //@   ensures result != nil ==> rootHas(t) == old(rootHas(t)) && rootHash(t) == old(rootHash(t)) && rootBlock(t) == old(rootBlock(t)) && rootPos(t) == old(rootPos(t))
 
@@ -126,7 +131,8 @@ package tree
 //@   trusted
 //@   requires t != nil
 //@   requires forall(k, 0, len(nodes), nodes[k].Hash == H(nodes[k].Left, nodes[k].Right))
-//@   modifies rhtHas(t), rhtL(t), rhtR(t)
+//@   modifies rhtHas(t), rhtL(t), rhtR(t), stmtFail
+//@   ensures stmtFail == old(stmtFail) + ite(result == nil, 0, 1)
 //@   ensures forall(x, Hash, old(rhtHas(t))[x] ==> rhtHas(t)[x] && rhtL(t)[x] == old(rhtL(t))[x] && rhtR(t)[x] == old(rhtR(t))[x])
 //@   ensures forall(x, Hash, rhtHas(t)[x] ==> x == H(rhtL(t)[x], rhtR(t)[x]))
 //@   ensures result == nil ==> forall(k, 0, len(nodes), rhtHas(t)[nodes[k].Hash] && rhtL(t)[nodes[k].Hash] == nodes[k].Left && rhtR(t)[nodes[k].Hash] == nodes[k].Right)
@@ -166,7 +172,11 @@ package tree
 //@   requires forall(h, 0, 32, bitAt(leaf.Index, h) ==> t.lastLeftCache[h] == solBranch(t)[h])
 //@   requires undoCnt(tx) == solCount(t) - txCount(t)
 //@   requires rollbackIndex(t.lastIndex, undoCnt(tx)) == -2 || (rollbackIndex(t.lastIndex, undoCnt(tx)) + 1 == txCount(t) && forall(h, 0, 32, bitAt(uint32(txCount(t)), h) ==> t.lastLeftCache[h] == txBranch(t)[h]))
-//@   modifies t.lastIndex, t.lastLeftCache, solBranch(t), solCount(t), rootHas(t.Tree), rootHash(t.Tree), rootBlock(t.Tree), rootPos(t.Tree), rhtHas(t.Tree), rhtL(t.Tree), rhtR(t.Tree), undoCnt(tx)
+//@   modifies t.lastIndex, t.lastLeftCache, solBranch(t), solCount(t), rootHas(t.Tree), rootHash(t.Tree), rootBlock(t.Tree), rootPos(t.Tree), rhtHas(t.Tree), rhtL(t.Tree), rhtR(t.Tree), undoCnt(tx), leafCalls, lastLeafErr, stmtFail
+//@   set leafCalls := old(leafCalls) + 1
+//@   set lastLeafErr := result
+//@   ensures[outcome-recorded] leafCalls == old(leafCalls) + 1 && lastLeafErr == result
+//@   ensures[success-means-stored] result == nil ==> stmtFail == old(stmtFail)
 // ghost code: on success the mirrored contract performs _addLeaf(leaf.Hash)
 //@   set solCount(t) := ite(result == nil, old(solCount(t)) + 1, old(solCount(t)))
 //@   choose solBranch(t) with ite(result == nil, forall(h, 0, 32, solBranch(t)[h] == solAddAt(old(solBranch(t)), leaf.Index, leaf.Hash, h)), solBranch(t) == old(solBranch(t)))
@@ -197,7 +207,11 @@ package tree
 //@   behavior any
 //@   props C07 C14
 //@   requires t != nil && t.Tree != nil && tx != nil && len(t.zeroHashes) == 33
-//@   modifies t.lastIndex, t.lastLeftCache, solBranch(t), solCount(t), rootHas(t.Tree), rootHash(t.Tree), rootBlock(t.Tree), rootPos(t.Tree), rhtHas(t.Tree), rhtL(t.Tree), rhtR(t.Tree), undoCnt(tx)
+//@   modifies t.lastIndex, t.lastLeftCache, solBranch(t), solCount(t), rootHas(t.Tree), rootHash(t.Tree), rootBlock(t.Tree), rootPos(t.Tree), rhtHas(t.Tree), rhtL(t.Tree), rhtR(t.Tree), undoCnt(tx), leafCalls, lastLeafErr, stmtFail
+//@   set leafCalls := old(leafCalls) + 1
+//@   set lastLeafErr := result
+//@   ensures[outcome-recorded] leafCalls == old(leafCalls) + 1 && lastLeafErr == result
+//@   ensures[success-means-stored] result == nil ==> stmtFail == old(stmtFail)
 //@   ensures[callback-iff-success] undoCnt(tx) == old(undoCnt(tx)) + ite(result == nil, 1, 0)
 //@   ensures[root-row-iff-success] result != nil ==> rootHas(t.Tree) == old(rootHas(t.Tree)) || rootHas(t.Tree) == upd(old(rootHas(t.Tree)), leaf.Index, true)
 //@   loop 0 unroll 32
